@@ -203,7 +203,7 @@ EXPORT errno_t _strncpy_s_chk(char *restrict dest, rsize_t dmax,
         overlap_bumper = dest;
 
         while (dmax > 0) {
-            if (unlikely(src == overlap_bumper)) {
+            if (unlikely(src == overlap_bumper && slen > 0)) {
                 handle_error(orig_dest, orig_dmax,
                              "strncpy_s: "
                              "overlapping objects",
